@@ -18,6 +18,22 @@ func (*GroupAggregator).Reset
   modifies ga.groups, ga.groupKeyVals
   ensures no-group-and-no-key-values-survive-a-reset: fresh(ga.groups) && fresh(ga.groupKeyVals) && forallv(k, "", !dom(ga.groups, k) && !dom(ga.groupKeyVals, k))
 
+// every group's row carries each GROUP BY column with the group's own key value, a NULL key as NULL: the column is
+// never left out
+func (*GroupAggregator).GetResults
+  props C04 C03 C01 C07 C09
+  acquires ga.mu
+  modifies pkgheaps(functions)
+  loop 2 invariant fresh(group) && forall(j, 0, $i, j < len(keyVals) ==> dom(group, ga.groupFields[j]))
+  loop 2 invariant the-key-column-carries-the-groups-own-key-value-null-included: $i > 0 && $i - 1 < len(keyVals) ==> dom(group, $s[$i - 1]) && group[$s[$i - 1]] == keyVals[$i - 1]
+
+// a numeric parameter written in the query (a percentile, an offset) is read at the full precision of the number type
+func (*EnhancedGroupAggregator).parseFunctionCall
+  props C03 C01 C04 C07 C09
+  before ParseFloat a-numeric-parameter-is-read-at-full-precision: $arg1 == 64
+  before ParseFloat the-text-read-is-the-parameters-own: $arg0 == paramStr
+  ensures true
+
 func (*GroupAggregator).Put
   props C03 C01 C04 C07 C09
   acquires ga.mu
